@@ -11,7 +11,7 @@ theorem convInt_prefixed (base : Nat) (hb : base = 2 ∨ base = 8 ∨ base = 16)
     (if (base == 8 || !ds.isEmpty) && allDigits base ds then
        (if longMin ≤ (digitsValue base ds : Int) ∧ (digitsValue base ds : Int) ≤ longMax then .ok (digitsValue base ds : Int) else .error .range)
      else .error .invalid) := by
-  have hb0 : (base == 0) = false := by rcases hb with h | h | h <;> subst h <;> rfl
+  have hb0 : (base == 10) = false := by rcases hb with h | h | h <;> subst h <;> rfl
   unfold convIntWith
   cases ds with
   | nil =>
@@ -53,10 +53,10 @@ theorem hexPrefix_false (base c : Nat) (cs : Bytes) (h : ∀ x t, c :: cs ≠ 48
     have : c ≠ 48 := by intro e; subst e; exact h x (y :: t) rfl
     simp [this]
 
-/-- signed decimal: `tok` = optional sign ++ `r`, not starting with `0` unless that is all of `r` -/
+/-- signed decimal: `tok` = optional sign ++ `r` -/
 theorem convInt_decimal (tok r : Bytes) (neg : Bool)
-    (hsp : tok.dropWhile isSpaceC = tok) (hs : splitSign tok = (neg, r)) (hz : ∀ x t, r ≠ 48 :: x :: t) (htok : tok ≠ []) :
-    convIntWith 0 tok =
+    (hsp : tok.dropWhile isSpaceC = tok) (hs : splitSign tok = (neg, r)) (htok : tok ≠ []) :
+    convIntWith 10 tok =
     (if !r.isEmpty && allDigits 10 r then
        (let n : Int := if neg then -(digitsValue 10 r : Int) else (digitsValue 10 r : Int)
         if longMin ≤ n ∧ n ≤ longMax then .ok n else .error .range)
@@ -66,48 +66,38 @@ theorem convInt_decimal (tok r : Bytes) (neg : Bool)
   | nil => simp [digitsOk, hs]
   | cons c cs =>
     by_cases hc : isDec c = true
-    · have hdo : digitsOk tok 0 = true := by simp [digitsOk, hs, hc]
-      have hst : strtolC tok 0 = strtolCore neg (if c = 48 then 8 else 10) tok (c :: cs) := by
+    · have hdo : digitsOk tok 10 = true := by simp [digitsOk, hs, hc]
+      have hst : strtolC tok 10 = strtolCore neg 10 tok (c :: cs) := by
         unfold strtolC
         rw [hsp, hs]
-        simp only [hexPrefix_false 0 c cs hz, Bool.false_eq_true, if_false, beq_self_eq_true, if_true, List.head?_cons]
-        by_cases h48 : c = 48 <;> simp [h48]
+        simp [hexPrefix]
       simp only [hdo, Bool.not_true, Bool.false_eq_true, if_false, hst, List.isEmpty_cons, Bool.not_false, Bool.true_and]
-      by_cases h48 : c = 48
-      · subst h48
-        have hcs : cs = [] := by
-          cases cs with
-          | nil => rfl
-          | cons x t => exact absurd rfl (hz x t)
-        subst hcs
-        cases neg <;> rfl
-      · simp only [h48, if_false]
-        by_cases hall : allDigits 10 (c :: cs) = true
-        · rw [strtolCore_all neg 10 tok (c :: cs) (by simp) hall]
-          simp only [hall, if_true]
-          cases neg
-          · simp only [Bool.false_eq_true, if_false]
-            by_cases hbig : digitsValue 10 (c :: cs) > 9223372036854775807
-            · have : ¬ ((digitsValue 10 (c :: cs) : Int) ≤ longMax) := by unfold longMax; omega
-              simp [hbig, this]
-            · have h1 : (digitsValue 10 (c :: cs) : Int) ≤ longMax := by unfold longMax; omega
-              have h2 : longMin ≤ (digitsValue 10 (c :: cs) : Int) := by unfold longMin; omega
-              simp [hbig, h1, h2]
-          · simp only [if_true]
-            by_cases hbig : digitsValue 10 (c :: cs) > 9223372036854775808
-            · have : ¬ (longMin ≤ -(digitsValue 10 (c :: cs) : Int)) := by unfold longMin; omega
-              simp [hbig, this]
-            · have h1 : -(digitsValue 10 (c :: cs) : Int) ≤ longMax := by unfold longMax; omega
-              have h2 : longMin ≤ -(digitsValue 10 (c :: cs) : Int) := by unfold longMin; omega
-              simp [hbig, h1, h2]
-        · have hall' : allDigits 10 (c :: cs) = false := by simpa using hall
-          have := strtolCore_rest neg 10 tok (c :: cs) htok hall'
-          have hne : (strtolCore neg 10 tok (c :: cs)).rest.isEmpty = false := by
-            cases hr : (strtolCore neg 10 tok (c :: cs)).rest with
-            | nil => exact absurd hr this
-            | cons _ _ => rfl
-          simp [hall', hne]
-    · have hdo : digitsOk tok 0 = false := by simp [digitsOk, hs, hc]
+      by_cases hall : allDigits 10 (c :: cs) = true
+      · rw [strtolCore_all neg 10 tok (c :: cs) (by simp) hall]
+        simp only [hall, if_true]
+        cases neg
+        · simp only [Bool.false_eq_true, if_false]
+          by_cases hbig : digitsValue 10 (c :: cs) > 9223372036854775807
+          · have : ¬ ((digitsValue 10 (c :: cs) : Int) ≤ longMax) := by unfold longMax; omega
+            simp [hbig, this]
+          · have h1 : (digitsValue 10 (c :: cs) : Int) ≤ longMax := by unfold longMax; omega
+            have h2 : longMin ≤ (digitsValue 10 (c :: cs) : Int) := by unfold longMin; omega
+            simp [hbig, h1, h2]
+        · simp only [if_true]
+          by_cases hbig : digitsValue 10 (c :: cs) > 9223372036854775808
+          · have : ¬ (longMin ≤ -(digitsValue 10 (c :: cs) : Int)) := by unfold longMin; omega
+            simp [hbig, this]
+          · have h1 : -(digitsValue 10 (c :: cs) : Int) ≤ longMax := by unfold longMax; omega
+            have h2 : longMin ≤ -(digitsValue 10 (c :: cs) : Int) := by unfold longMin; omega
+            simp [hbig, h1, h2]
+      · have hall' : allDigits 10 (c :: cs) = false := by simpa using hall
+        have := strtolCore_rest neg 10 tok (c :: cs) htok hall'
+        have hne : (strtolCore neg 10 tok (c :: cs)).rest.isEmpty = false := by
+          cases hr : (strtolCore neg 10 tok (c :: cs)).rest with
+          | nil => exact absurd hr this
+          | cons _ _ => rfl
+        simp [hall', hne]
+    · have hdo : digitsOk tok 10 = false := by simp [digitsOk, hs, hc]
       have hall : allDigits 10 (c :: cs) = false := by
         have : ¬ digitVal c < 10 := by rw [digitVal_lt10]; exact hc
         simp [allDigits, this]
@@ -115,7 +105,7 @@ theorem convInt_decimal (tok r : Bytes) (neg : Bool)
 
 theorem C04_int_other (c : Nat) (cs : Bytes) (h48 : c ≠ 48) (h45 : c ≠ 45) (h43 : c ≠ 43) :
     convInt (c :: cs) = intExpected (c :: cs) := by
-  have hr : radixOf (c :: cs) = (0, c :: cs) := by
+  have hr : radixOf (c :: cs) = (10, c :: cs) := by
     unfold radixOf; split <;> simp_all
   have hin : intNumeral (c :: cs) = (if !(c :: cs).isEmpty && allDigits 10 (c :: cs) then some (digitsValue 10 (c :: cs) : Int) else none) := by
     unfold intNumeral
@@ -128,20 +118,20 @@ theorem C04_int_other (c : Nat) (cs : Bytes) (h48 : c ≠ 48) (h45 : c ≠ 45) (
       simp only [isDec, Bool.and_eq_true, decide_eq_true_eq] at hd
       simp only [isSpaceC, Bool.or_eq_false_iff, Bool.and_eq_false_iff, decide_eq_false_iff_not, beq_eq_false_iff_ne, ne_eq]
       omega
-    have hz : ∀ x t, c :: cs ≠ 48 :: x :: t := by
-      intro x t e; injection e with e1 _; exact h48 e1
-    rw [convInt_decimal (c :: cs) (c :: cs) false (by simp [hns]) hss hz (by simp)]
+    rw [convInt_decimal (c :: cs) (c :: cs) false (by simp [hns]) hss (by simp)]
     by_cases h : allDigits 10 (c :: cs) = true <;> simp [h]
-  · have hdo : digitsOk (c :: cs) 0 = false := by simp [digitsOk, hss, hd]
+  · have hdo : digitsOk (c :: cs) 10 = false := by simp [digitsOk, hss, hd]
     have hall : allDigits 10 (c :: cs) = false := by
       have : ¬ digitVal c < 10 := by rw [digitVal_lt10]; exact hd
       simp [allDigits, this]
     simp [convIntWith, hdo, hall]
 
-/-- **C04 (integers).** Outside the sign+radix-prefix zone the conversion answers exactly what the
-numeral grammar says: the denoted number if it fits a `long`, a range error if it does not, and
-"invalid" for everything that is not a numeral — no truncation, wrap-around or default. -/
-theorem C04_int (tok : Bytes) (hz : signPrefixZone tok = false) : convInt tok = intExpected tok := by
+/-- **C04 (integers).** For EVERY byte string the conversion answers exactly what the numeral grammar
+says: the denoted number if it fits a `long`, a range error if it does not, and "invalid" for
+everything that is not a numeral — no truncation, wrap-around or default.  (Until fix F36 a sign in
+front of a radix prefix, `-010` / `+0x1f`, was read by `strtol` in base 0; the theorem then needed a
+hypothesis excluding those tokens.) -/
+theorem C04_int (tok : Bytes) : convInt tok = intExpected tok := by
   cases tok with
   | nil => rfl
   | cons c r =>
@@ -178,18 +168,14 @@ theorem C04_int (tok : Bytes) (hz : signPrefixZone tok = false) : convInt tok = 
             by_cases h : allDigits 8 (x :: ds) = true <;> simp [h]
     · by_cases h45 : c = 45
       · subst h45
-        have hzr : ∀ x t, r ≠ 48 :: x :: t := by
-          intro x t e; subst e; simp [signPrefixZone] at hz
-        have := convInt_decimal (45 :: r) r true (by simp [isSpaceC]) (by simp [splitSign]) hzr (by simp)
+        have := convInt_decimal (45 :: r) r true (by simp [isSpaceC]) (by simp [splitSign]) (by simp)
         unfold convInt intExpected
         simp only [radixOf, intNumeral]
         rw [this]
         by_cases h : (!r.isEmpty && allDigits 10 r) = true <;> simp [h]
       · by_cases h43 : c = 43
         · subst h43
-          have hzr : ∀ x t, r ≠ 48 :: x :: t := by
-            intro x t e; subst e; simp [signPrefixZone] at hz
-          have := convInt_decimal (43 :: r) r false (by simp [isSpaceC]) (by simp [splitSign]) hzr (by simp)
+          have := convInt_decimal (43 :: r) r false (by simp [isSpaceC]) (by simp [splitSign]) (by simp)
           unfold convInt intExpected
           simp only [radixOf, intNumeral]
           rw [this]
@@ -197,9 +183,9 @@ theorem C04_int (tok : Bytes) (hz : signPrefixZone tok = false) : convInt tok = 
         · exact C04_int_other c r h48 h45 h43
 
 /-- **C04 (no silent wrap).** Whatever is accepted is inside the range of `long`. -/
-theorem C04_int_range (tok : Bytes) (n : Int) (hz : signPrefixZone tok = false) (h : convInt tok = .ok n) :
+theorem C04_int_range (tok : Bytes) (n : Int) (h : convInt tok = .ok n) :
     longMin ≤ n ∧ n ≤ longMax ∧ intNumeral tok = some n := by
-  rw [C04_int tok hz] at h
+  rw [C04_int tok] at h
   unfold intExpected at h
   cases hn : intNumeral tok with
   | none => simp [hn] at h
@@ -245,7 +231,8 @@ theorem C04_float_accept (tok : Bytes) (b : Nat) (h : convFloat tok = .ok b) :
         | nan => simp [hv, Dbl.isFinite] at h3
 
 /-! Non-vacuity -/
-example : convInt [48, 120, 49, 70] = .ok 31 ∧ signPrefixZone [48, 120, 49, 70] = false := by decide
+example : convInt [48, 120, 49, 70] = .ok 31 := by decide
+example : convInt [45, 48, 49, 48] = .ok (-10) ∧ convInt [43, 48, 120, 49, 102] = .error .invalid := by decide
 example : intExpected [57,50,50,51,51,55,50,48,51,54,56,53,52,55,55,53,56,48,56] = .error .range := by decide
 example : intExpected [45,57,50,50,51,51,55,50,48,51,54,56,53,52,55,55,53,56,48,56] = .ok longMin := by decide
 example : intExpected [48, 120] = .error .invalid ∧ intExpected [48, 56] = .error .invalid := by decide
